@@ -187,10 +187,16 @@ def run(ctx) -> None:
         ok = False
         if len(rets) == 1:
             v = rets[0].value
-            if isinstance(v, ast.Compare) and self_attr(v.left) == st_attr and isinstance(v.ops[0], ast.In) and isinstance(v.comparators[0], (ast.Tuple, ast.Set, ast.List)):
-                ok = {enum_member(x, st_enum) for x in v.comparators[0].elts} == {"closing", "closed"}
-            elif isinstance(v, ast.Compare) and self_attr(v.left) == st_attr and isinstance(v.ops[0], ast.NotIn) and isinstance(v.comparators[0], (ast.Tuple, ast.Set, ast.List)):
-                ok = {enum_member(x, st_enum) for x in v.comparators[0].elts} == {"inactive", "open"}
+            def members(expr):
+                # inline literal, or a module-level constant (tuple / set / frozenset of members)
+                if isinstance(expr, ast.Name) and expr.id in closed.module.assigns:
+                    expr = closed.module.assigns[expr.id]
+                return {enum_member(x, st_enum) for x in ast.walk(expr) if isinstance(x, ast.Attribute) and enum_member(x, st_enum)}
+
+            if isinstance(v, ast.Compare) and self_attr(v.left) == st_attr and isinstance(v.ops[0], ast.In):
+                ok = members(v.comparators[0]) == {"closing", "closed"}
+            elif isinstance(v, ast.Compare) and self_attr(v.left) == st_attr and isinstance(v.ops[0], ast.NotIn):
+                ok = members(v.comparators[0]) == {"inactive", "open"}
             elif isinstance(v, ast.BoolOp) and isinstance(v.op, ast.Or):
                 ms = set()
                 for c in v.values:
